@@ -109,6 +109,9 @@ __CPROVER_requires(__CPROVER_is_fresh(self, sizeof(*self)) && self->wait_tokens_
 __CPROVER_assigns(g_valq, g_q, g_count, g_hold, g_vals, g_queued, g_cancelled, g_waits, g_pushes, g_seen, g_free_seen, g_qsize_seen, self->hold_token_, self->wait_tokens_.size)
 __CPROVER_ensures(T(__CPROVER_return_value) ==> (self->hold_token_.id_ == g_me.id_ && self->hold_token_.pos_ == g_me.pos_))       /* held by the caller */
 __CPROVER_ensures((T(__CPROVER_return_value) && g_waits > 0) ==> g_free_seen == 1)                                                 /* taken only when seen free */
+/* never taken from another holder: whoever waited and ends up as the holder saw the mutex free - the cancelled waiter included; a refused lock() holds nothing */
+__CPROVER_ensures((self->hold_token_.id_ == g_me.id_ && self->hold_token_.pos_ == g_me.pos_ && g_waits > 0) ==> g_free_seen == 1)
+__CPROVER_ensures(!T(__CPROVER_return_value) ==> !(self->hold_token_.id_ == g_me.id_ && self->hold_token_.pos_ == g_me.pos_))
 ''' + WAITER_POST,
     ('ghost', 'Mu_lock', 'entry'): 'g_valq = 0; g_q = &self->wait_tokens_; g_count = 0; g_hold = &self->hold_token_; g_vals = 0; g_queued = 0; g_waits = 0; g_pushes = 0; g_free_seen = 0;',
     ('loop', 'Mu_lock', 1): r'''
@@ -154,7 +157,7 @@ __CPROVER_ensures(self->queue_.size == __CPROVER_old(self->queue_.size) + 1 && g
 SPEC[('prelude',)] = PRELUDE + '#define IS_HOLDER (__CPROVER_old(self->hold_token_.id_) == g_me.id_ && __CPROVER_old(self->hold_token_.pos_) == g_me.pos_)\n'
 H = lambda body: '\nvoid H(void)\n{\n' + body + '\n  __CPROVER_assert(0, "VACUITY-CANARY");\n}\n'
 ST = ['Sch_wait', 'Sch_resume', 'Sch_getToken', 'Sch_isCanceled']
-WAITS = {'Sem_': ('*g_count', '*g_count >= 0 && *g_count < 1000000'), 'Mu_': ('*g_hold', '1'),
+WAITS = {'Sem_': ('*g_count', '*g_count >= 0 && *g_count < 1000000'), 'Mu_': ('*g_hold', '!(g_hold->id_ == g_me.id_ && g_hold->pos_ == g_me.pos_)'),       # rely: while this routine is suspended the others store only THEIR OWN token (lock's postcondition, applied to them)
          'Ch_': ('*g_vals', '*g_vals < V_MAXSZ')}
 def _sub(prefix):
     d = {k: v for k, v in SPEC.items() if len(k) < 2 or k[0] == 'stub' or k[1].startswith(prefix)}
